@@ -436,7 +436,7 @@ pub fn run(ctx: &Ctx) -> i32 {
         let h = std::thread::Builder::new()
             .stack_size(2 << 20)
             .spawn(move || {
-                let ctx = Ctx { tier, seed, findings: vcore::findings::Findings::load(), replay: None, args: vec![] };
+                let ctx = Ctx { tier, seed, findings: vcore::findings::Findings::load(), replay: None, replay_path: None, args: vec![] };
                 child(&ctx)
             })
             .unwrap();
